@@ -13,6 +13,9 @@ import (
 // Dmg is one damage applied to a valid copy of a build on disk.
 //
 //	flip      xor one byte at Off
+//	collide   change three neighbouring bytes at or after Off (same 64KiB block) by +1, -2, +1: the block's
+//	          rolling (weak) hash stays the same, only the strong hash tells the difference; falls back to
+//	          flip when the block has no position where that is possible without a byte wrapping around
 //	truncate  cut the file to Len bytes
 //	extend    append Len bytes
 //	delete    remove the entry (recursively for directories)
@@ -27,6 +30,25 @@ type Dmg struct {
 	Off  int    `json:"off,omitempty"`
 	Len  int    `json:"len,omitempty"`
 	Dest string `json:"dest,omitempty"`
+}
+
+// CollideBytes changes b[j], b[j+1], b[j+2] by +1, -2, +1 for the first j >= off such that the three bytes
+// lie in the 64KiB block of off and none wraps around. Both sums of the rsync rolling hash of that block
+// (sum of bytes, position-weighted sum of bytes) are unchanged. Reports whether such a j was found.
+func CollideBytes(b []byte, off int) bool {
+	end := (off/BS + 1) * BS
+	if end > len(b) {
+		end = len(b)
+	}
+	for j := off; j+2 < end; j++ {
+		if b[j] <= 254 && b[j+1] >= 2 && b[j+2] <= 254 {
+			b[j]++
+			b[j+1] -= 2
+			b[j+2]++
+			return true
+		}
+	}
+	return false
 }
 
 // ApplyDmg applies d below dir. A damage whose victim is not there any more (an
@@ -61,6 +83,18 @@ func ApplyDmg(dir string, d Dmg) error {
 		return nil
 	}
 	switch d.Op {
+	case "collide":
+		if !st.Mode().IsRegular() || int64(d.Off) >= st.Size() {
+			return nil
+		}
+		b, err := os.ReadFile(fp)
+		if err != nil {
+			return err
+		}
+		if !CollideBytes(b, d.Off) {
+			b[d.Off] ^= 0x10
+		}
+		return os.WriteFile(fp, b, st.Mode().Perm())
 	case "flip":
 		if !st.Mode().IsRegular() || int64(d.Off) >= st.Size() {
 			return nil
@@ -242,6 +276,9 @@ func GenDamages(t *rapid.T, signed Tree, maxN int, hidden, whole bool) []Dmg {
 			switch {
 			case k < 6:
 				d.Op = "flip"
+				if k == 5 {
+					d.Op = "collide"
+				}
 				if size == 0 {
 					d.Op = "extend"
 					d.Len = rapid.SampledFrom([]int{1, 100, BS, BS + 1}).Draw(t, "fill-empty")
@@ -333,6 +370,8 @@ func DmgClasses(signed Tree, ds []Dmg) []string {
 		}
 		size := e.C.Len()
 		switch d.Op {
+		case "collide":
+			cl = append(cl, "damage:same-weak-hash")
 		case "flip":
 			if d.Off%BS == 0 || d.Off%BS == BS-1 || d.Off == size-1 {
 				cl = append(cl, "damage:flip-at-block-boundary-class")
